@@ -95,8 +95,13 @@ Lemma store_finalise s : store (finalise s) = store s. Proof. reflexivity. Qed.
 Section NoStale.
 Variable c : xcfg.
 Hypothesis Hst : d_stale_changer c = false.
+Hypothesis Hpm : d_prev_from_memory c = false.
+Hypothesis Htb : d_revert_drops_tombstone c = false.
 
-Ltac eff := unfold jstore, rawstore, setbal, setnonce, postev, touch, live; rewrite ?Hst; simpl;
+Lemma jprev_fixed s k : jprev c s k = store s k.
+Proof. unfold jprev. rewrite Hpm, Htb. simpl. destruct (store s k); reflexivity. Qed.
+
+Ltac eff := unfold jstore, rawstore, setbal, setnonce, postev, peek, touch, live; rewrite ?Hst, ?jprev_fixed; simpl;
             repeat match goal with |- context [match loaded ?s ?a with _ => _ end] => destruct (loaded s a) end;
             simpl; try reflexivity.
 
@@ -106,10 +111,16 @@ Lemma nonce_touch s a : nonce (touch s a) = nonce s. Proof. eff. Qed.
 Lemma log_touch s a : log (touch s a) = log s. Proof. eff. Qed.
 Lemma evs_touch s a : evs (touch s a) = evs s. Proof. eff. Qed.
 
+Lemma store_peek s k : store (peek s k) = store s. Proof. eff. Qed.
+Lemma bal_peek s k : bal (peek s k) = bal s. Proof. eff. Qed.
+Lemma nonce_peek s k : nonce (peek s k) = nonce s. Proof. eff. Qed.
+Lemma log_peek s k : log (peek s k) = log s. Proof. eff. Qed.
+
 Lemma store_jstore s k v : store (jstore c s k v) = kset (store s) k v. Proof. eff. Qed.
 Lemma bal_jstore s k v : bal (jstore c s k v) = bal s. Proof. eff. Qed.
 Lemma nonce_jstore s k v : nonce (jstore c s k v) = nonce s. Proof. eff. Qed.
-Lemma log_jstore s k v : log (jstore c s k v) = UStore k (store s k) :: log s. Proof. eff. Qed.
+Lemma log_jstore s k v : log (jstore c s k v) = UStore k (store s k) :: log s.
+Proof. unfold jstore. rewrite jprev_fixed. unfold live. rewrite Hst. simpl. unfold touch. destruct (loaded s (fst k)); reflexivity. Qed.
 
 Lemma store_rawstore s k v : store (rawstore s k v) = kset (store s) k v. Proof. eff. Qed.
 Lemma bal_rawstore s k v : bal (rawstore s k v) = bal s. Proof. eff. Qed.
@@ -132,6 +143,13 @@ Lemma rbal_touch s a x : rbal (touch s a) x = rbal s x.
 Proof. unfold rbal. rewrite log_touch, bal_touch. reflexivity. Qed.
 Lemma rnonce_touch s a x : rnonce (touch s a) x = rnonce s x.
 Proof. unfold rnonce. rewrite log_touch, nonce_touch. reflexivity. Qed.
+
+Lemma rstore_peek s kk k : rstore (peek s kk) k = rstore s k.
+Proof. unfold rstore. rewrite log_peek, store_peek. reflexivity. Qed.
+Lemma rbal_peek s kk x : rbal (peek s kk) x = rbal s x.
+Proof. unfold rbal. rewrite log_peek, bal_peek. reflexivity. Qed.
+Lemma rnonce_peek s kk x : rnonce (peek s kk) x = rnonce s x.
+Proof. unfold rnonce. rewrite log_peek, nonce_peek. reflexivity. Qed.
 
 Lemma rstore_jstore s k v k0 : rstore (jstore c s k v) k0 = rstore s k0.
 Proof.
@@ -219,12 +237,13 @@ Qed.
 
 Lemma run_rrel p : forall s s' r, run c p s = (s', r) -> rrel (raws c p s) s s'.
 Proof.
-  induction p as [| t | | a k IH | kk v k IH | kk k IH | kk v k IH | a v k IH | e k IH | callee inner IHi kok IHo kerr IHe];
+  induction p as [| t | | a k IH | pk k IH | kk v k IH | kk k IH | kk v k IH | a v k IH | e k IH | callee inner IHi kok IHo kerr IHe];
     intros s s' r H; simpl in H; simpl raws.
   - inversion H; subst. apply rrel_refl.
   - inversion H; subst. apply rrel_refl.
   - inversion H; subst. apply rrel_refl.
   - apply IH in H. eapply rrel_step; [| | | exact H]; intros; [apply rbal_touch | apply rnonce_touch | apply rstore_touch].
+  - apply IH in H. eapply rrel_step; [| | | exact H]; intros; [apply rbal_peek | apply rnonce_peek | apply rstore_peek].
   - apply IH in H. eapply rrel_step; [| | | exact H]; intros; [apply rbal_jstore | apply rnonce_jstore | apply rstore_jstore].
   - apply IH in H. eapply rrel_step; [| | | exact H]; intros; [apply rbal_jstore | apply rnonce_jstore | apply rstore_jstore].
   - apply IH in H. destruct H as [Hb [Hn Hs]]. split; [|split].
@@ -465,14 +484,15 @@ Qed.
 (** the frame property at every position of a block: for the transaction at position
     [length p] of [p ++ t :: q] the theorem above applies to the state reached after [p] *)
 Theorem block_position_frame c e s pre p t :
-  d_stale_changer c = false -> d_fee_after_body (x_fees c) = false ->
+  d_stale_changer c = false -> d_prev_from_memory c = false -> d_revert_drops_tombstone c = false ->
+  d_fee_after_body (x_fees c) = false ->
   tx_invalid t = true \/ is_ibtp t = false \/ d_ibtp_no_revert c = false ->
   let '(si, _, _) := apply_txs c e 0%N (new_block s pre) p in
   let '(si', rc, _) := apply_tx c e (N.of_nat (length p)) si t in
   d_raw_add c = false \/ tx_raws c si t = [] ->
   r_ok rc = false -> frame_ok e si si' t.
 Proof.
-  intros Hs Hf Hi.
+  intros Hs Hpm Htb Hf Hi.
   destruct (apply_txs c e 0%N (new_block s pre) p) as [[si r1] c1].
   destruct (apply_tx c e (N.of_nat (length p)) si t) as [[si' rc] c2] eqn:E.
   intros Hr Hok. eapply failed_frame_generic; eassumption.
@@ -484,24 +504,24 @@ Qed.
 Definition only (f : xcfg -> xcfg) : xcfg := f xcfg_fixed.
 Definition env1 : fenv := {| admins := [1000%N; 1001%N]; price := 0; genesis_bal := 1000 |}.
 Definition env_fee : fenv := {| admins := [1000%N; 1001%N]; price := 1; genesis_bal := 1000 |}.
-Definition s_empty : st := mkSt (fun _ => None) (fun _ => 0) (fun _ => 0%N) (fun _ => None) 0%N [] [].
-Definition s_rich : st := mkSt (fun _ => None) (of_alist [(1%N, 100000)]) (fun _ => 0%N) (fun _ => None) 0%N [] [].
+Definition s_empty : st := mkSt (fun _ => None) (fun _ => 0) (fun _ => 0%N) (fun _ => None) 0%N [] [] (fun _ => true) (fun _ => None).
+Definition s_rich : st := mkSt (fun _ => None) (of_alist [(1%N, 100000)]) (fun _ => 0%N) (fun _ => None) 0%N [] [] (fun _ => true) (fun _ => None).
 Definition kA : key := (2001%N, 1%N).
 Definition kB : key := (2001%N, 2%N).
 Definition mk_tx from n k := {| tx_from := from; tx_nonce := n; tx_kind := k; tx_invalid := false |}.
 
 Definition cfg_raw := {| d_raw_add := true; d_stub_promoted := false; d_ibtp_no_revert := false; d_failed_events := false;
-                        d_stale_changer := false; x_fees := {| d_self_transfer := false; d_neg_amount := false; d_fee_after_body := false |} |}.
+                        d_stale_changer := false; d_prev_from_memory := false; d_revert_drops_tombstone := false; x_fees := {| d_self_transfer := false; d_neg_amount := false; d_fee_after_body := false |} |}.
 Definition cfg_stub := {| d_raw_add := true; d_stub_promoted := true; d_ibtp_no_revert := false; d_failed_events := false;
-                        d_stale_changer := false; x_fees := {| d_self_transfer := false; d_neg_amount := false; d_fee_after_body := false |} |}.
+                        d_stale_changer := false; d_prev_from_memory := false; d_revert_drops_tombstone := false; x_fees := {| d_self_transfer := false; d_neg_amount := false; d_fee_after_body := false |} |}.
 Definition cfg_ibtp := {| d_raw_add := false; d_stub_promoted := false; d_ibtp_no_revert := true; d_failed_events := false;
-                        d_stale_changer := false; x_fees := {| d_self_transfer := false; d_neg_amount := false; d_fee_after_body := false |} |}.
+                        d_stale_changer := false; d_prev_from_memory := false; d_revert_drops_tombstone := false; x_fees := {| d_self_transfer := false; d_neg_amount := false; d_fee_after_body := false |} |}.
 Definition cfg_events := {| d_raw_add := false; d_stub_promoted := false; d_ibtp_no_revert := false; d_failed_events := true;
-                        d_stale_changer := false; x_fees := {| d_self_transfer := false; d_neg_amount := false; d_fee_after_body := false |} |}.
+                        d_stale_changer := false; d_prev_from_memory := false; d_revert_drops_tombstone := false; x_fees := {| d_self_transfer := false; d_neg_amount := false; d_fee_after_body := false |} |}.
 Definition cfg_stale := {| d_raw_add := false; d_stub_promoted := false; d_ibtp_no_revert := false; d_failed_events := false;
-                        d_stale_changer := true; x_fees := {| d_self_transfer := false; d_neg_amount := false; d_fee_after_body := false |} |}.
+                        d_stale_changer := true; d_prev_from_memory := false; d_revert_drops_tombstone := false; x_fees := {| d_self_transfer := false; d_neg_amount := false; d_fee_after_body := false |} |}.
 Definition cfg_fab := {| d_raw_add := false; d_stub_promoted := false; d_ibtp_no_revert := false; d_failed_events := false;
-                        d_stale_changer := false; x_fees := {| d_self_transfer := false; d_neg_amount := false; d_fee_after_body := true |} |}.
+                        d_stale_changer := false; d_prev_from_memory := false; d_revert_drops_tombstone := false; x_fees := {| d_self_transfer := false; d_neg_amount := false; d_fee_after_body := true |} |}.
 
 (** a non-journaled write followed by any failure (here: the fee) survives the revert *)
 Theorem raw_add_refuted :
@@ -548,6 +568,54 @@ Example stale_changer_first_position_ok :
   let '(s', rcs, _) := exec_block cfg_stale env1 s_empty []
         [mk_tx 2%N 0%N (KBvm (fun _ => JWrite kB 5%N Panic))] in
   map r_ok rcs = [false] /\ store s' kB = None.
+Proof. vm_compute. repeat split; reflexivity. Qed.
+
+(** cold cache (after a restart): the journal of a blind overwrite records "no previous value" for a
+    key that is only on disk; the FAILED transaction's revert leaves the key deleted *)
+Definition cfg_prevmem := {| d_raw_add := false; d_stub_promoted := false; d_ibtp_no_revert := false; d_failed_events := false;
+                            d_stale_changer := false; d_prev_from_memory := true; d_revert_drops_tombstone := false;
+                            x_fees := fcfg_fixed |}.
+Definition s_cold : st :=
+  mkSt (fun x => if key_eqb x kA then Some 9%N else None) (fun _ => 0) (fun _ => 0%N) (fun _ => None) 0%N [] []
+       (fun _ => false) (fun x => if key_eqb x kA then Some 9%N else None).
+
+Theorem prev_from_memory_refuted :
+  let '(s', rc, _) := apply_tx cfg_prevmem env_fee 0%N s_cold (mk_tx 1%N 0%N (KBvm (fun _ => JWrite kA 5%N Done))) in
+  r_ok rc = false /\ store s_cold kA = Some 9%N /\ store s' kA = None.
+Proof. vm_compute. repeat split; reflexivity. Qed.
+
+(** the same transaction after the key was read (warm) is reverted correctly, and so is the cold
+    case under the repaired behaviour *)
+Example prev_from_memory_warm_ok :
+  let '(s', rc, _) := apply_tx cfg_prevmem env_fee 0%N s_cold (mk_tx 1%N 0%N (KBvm (fun _ => Peek kA (JWrite kA 5%N Done)))) in
+  r_ok rc = false /\ store s' kA = Some 9%N.
+Proof. vm_compute. repeat split; reflexivity. Qed.
+Example cold_overwrite_fixed_ok :
+  let '(s', rc, _) := apply_tx xcfg_fixed env_fee 0%N s_cold (mk_tx 1%N 0%N (KBvm (fun _ => JWrite kA 5%N Done))) in
+  r_ok rc = false /\ store s' kA = Some 9%N.
+Proof. vm_compute. repeat split; reflexivity. Qed.
+
+(** an earlier SUCCESSFUL transaction of the block deleted a committed key; the revert of a later
+    FAILED write of that key drops the deletion marker: the key reads as its old value again *)
+Definition cfg_tomb := {| d_raw_add := false; d_stub_promoted := false; d_ibtp_no_revert := false; d_failed_events := false;
+                         d_stale_changer := false; d_prev_from_memory := false; d_revert_drops_tombstone := true;
+                         x_fees := fcfg_fixed |}.
+Definition s_committed : st :=
+  mkSt (fun x => if key_eqb x kA then Some 9%N else None) (fun _ => 0) (fun _ => 0%N) (fun _ => None) 0%N [] []
+       (fun _ => true) (fun _ => None).
+
+Theorem revert_drops_tombstone_refuted :
+  let '(s', rcs, _) := exec_block cfg_tomb env1 s_committed []
+        [mk_tx 1%N 0%N (KBvm (fun _ => JDelete kA Done));
+         mk_tx 2%N 0%N (KBvm (fun _ => JWrite kA 5%N Panic))] in
+  map r_ok rcs = [true; false] /\ store s' kA = Some 9%N.
+Proof. vm_compute. repeat split; reflexivity. Qed.
+
+Example revert_keeps_tombstone_fixed :
+  let '(s', rcs, _) := exec_block xcfg_fixed env1 s_committed []
+        [mk_tx 1%N 0%N (KBvm (fun _ => JDelete kA Done));
+         mk_tx 2%N 0%N (KBvm (fun _ => JWrite kA 5%N Panic))] in
+  map r_ok rcs = [true; false] /\ store s' kA = None.
 Proof. vm_compute. repeat split; reflexivity. Qed.
 
 (** fee checked after the body: a transfer the sender could not afford on top of the fee costs
